@@ -633,8 +633,6 @@ class BaseSection(base.Sectionable):
         :return: The cloned Section.
         """
         obj = super(BaseSection, self).clone(children, keep_id)
-        if not keep_id:
-            obj.new_id()
 
         obj._props = base.SmartList(BaseProperty)
         if children:
